@@ -90,7 +90,8 @@ def build_field(recipe, vals):
         return FieldCollection(members, label=recipe.get("label"))
     r = KIND_RANK[recipe["kind"]]
     shp = (g.dim,) * r + tuple(g.shape)
-    return cls[recipe["kind"]](g, arr.reshape(shp), label=recipe.get("label"))
+    dt = np.dtype(recipe.get("dtype", "float64"))
+    return cls[recipe["kind"]](g, arr.reshape(shp).astype(dt), label=recipe.get("label"), dtype=dt)
 
 
 def info_of(field):
@@ -269,6 +270,7 @@ class RealWorld:
         sid = op["sid"]
         if k == "append":
             mop["t"] = None if op["t"] is None else q(op["t"])
+            mop.pop("cast", None)
         if k == "extractTimeRange":
             for a in ("a", "b"):
                 if a in op:
@@ -288,6 +290,11 @@ class RealWorld:
                 return self._bad(mop)
             f = F[op["fid"]]
             via = op.get("via", "direct")
+            if k == "append":
+                # numpy's verdict for the dtype rule of StorageBase.append (external to the model)
+                cast = st._dtype is None or bool(np.can_cast(f.dtype, st._dtype, casting="same_kind"))
+                mop["cast"] = cast
+                op["cast"] = cast
             if k == "start":
                 if via == "tracker":
                     tr = st.tracker(1, transformation=(lambda x: x) if op.get("how") == "transform" else None)
@@ -364,6 +371,9 @@ class RealWorld:
             if out is not None and (out >= len(S) or out == sid):
                 return self._bad(mop)
             o = None if out is None else S[out]
+            src_dtype = np.dtype(float) if st._field is None else np.dtype(st._field.dtype)
+            cast = o is None or o._dtype is None or bool(np.can_cast(src_dtype, o._dtype, casting="same_kind"))
+            mop["cast"] = cast
             if op["func"]["kind"] == "ident" and op.get("how") != "apply":
                 r = st.copy(out=o) if o is not None else st.copy()
             else:
